@@ -352,7 +352,7 @@ def equal(t1, t2, N=None, limit=4096, with_unordered=False):
 # ---------------------------------------------------------------------------------------------------------------------
 # Real-arithmetic equality is blind to two things a floating-point program can do to a formula without changing its
 # rational normal form: add and subtract the same (large) quantity, and multiply something possibly non-finite by 0.
-def hazards(t, N=None, ratio=10 ** 6):
+def hazards(t, N=None, ratio=1000):
     """-> list of descriptions.  For every additive tree of the term (maximal chains of + / - / neg, whatever they sit in) the
     summands are normalised one by one and then added twice: with their signs, and with all coefficients made positive.  A
     monomial whose signed coefficient is 0 (or `ratio` times smaller than the unsigned one) is a quantity that the code adds
@@ -392,7 +392,7 @@ def hazards(t, N=None, ratio=10 ** 6):
             groups = {}
             for sg, u in acc:
                 try:
-                    r = N.rat(u)
+                    r = N.rat(u).canon()   # (denominators scaled to leading coefficient 1: `P*2/2` lands in the group of `P`)
                 except Exception:
                     continue
                 g = groups.setdefault(r.d.key(), [Poly(), {}])
@@ -409,6 +409,20 @@ def hazards(t, N=None, ratio=10 ** 6):
                     big = a >= 1000 or sum(e for _, e in k) >= 2
                     if (c == 0 and big) or (c != 0 and a / abs(c) >= ratio):
                         out.append("the quantity %s is added and subtracted again (sum of magnitudes %s, net coefficient %s)" % (_mono(k), float(a), float(c)))
+        if h == "/" and len(x) == 3:
+            # a factor that the quotient cancels: (t * v) / v is t over the rationals, 0/0 = NaN when v is 0 (and inf/inf when it overflows)
+            try:
+                rn, rd = N.rat(x[1]), N.rat(x[2])
+                if rn.d.is_const() and rd.d.is_const() and not rd.n.is_const() and not rn.n.is_zero():
+                    common = None
+                    for k_ in list(rd.n.t) + list(rn.n.t):
+                        vs = {a_ for a_, e_ in k_}
+                        common = vs if common is None else (common & vs)
+                    for v_ in (common or ()):
+                        out.append("the quotient cancels the factor %s between numerator and denominator (0/0 when it is 0)" % _mono(((v_, 1),)))
+                        break
+            except Exception:
+                pass
         if h == "*" and len(x) == 3:
             for z, o in ((x[1], x[2]), (x[2], x[1])):
                 if isinstance(z, tuple) and len(z) == 3 and z[0] == "c" and z[1] in ("f64", "int") and z[2] == 0 and \
